@@ -24,6 +24,9 @@ def main():
         'hints': [(s, h) for s in ('2002-01-01T03:05', '2002-01-01 03:05:59 ', '2002-01-01 03:05+0100', '2002-02-30 03:05', 'YEAR-MO-DA HO:MI+ZONE', 'x')
                   for h in G.HINTS_OK + G.HINTS_BAD],
         'random': G.fix_inputs(rng, 30000 * scale, abbrs, unique),
+        # every hint of the form +-dddd (every 7th in quick), on a date without zone and on one with
+        'hint-domain': [(s, sg + '%04d' % k) for k in range(0, 10000, 1 if chk.thorough else 7) for sg in '+-'
+                        for s in (('2002-01-01T03:05',) if k % 3 else ('2002-01-01T03:05', '2002-01-01 03:05 CET'))],
     }
     disagreeing = []
     fixed_points = []
